@@ -340,7 +340,14 @@ impl<'a> Gen<'a> {
             _ if !ids.is_empty() => *self.rng.pick(&ids),
             _ => 1,
         };
-        let label = if self.pct(7) { String::new() } else { format!("c{}", self.rng.below(1000)) };
+        let label = if self.pct(7) {
+            String::new()
+        } else if self.pct(15) {
+            // labels are recorded exactly as supplied
+            self.rng.pick(&[" padded", "padded ", "\tx\n", " ", "a b", "\u{00A0}nbsp"]).to_string()
+        } else {
+            format!("c{}", self.rng.below(1000))
+        };
         let mut admins: Vec<Option<String>> = vec![None, Some(sender.to_string()), Some(self.users[0].clone()), Some(self.users[1].clone())];
         if let Some(c) = m.st.contracts.keys().next() {
             admins.push(Some(c.clone()));
